@@ -1279,7 +1279,7 @@ func refSetOp(op string, args []spec.V) outcome {
 
 // Description: "Returns true if the given set contains the given element, or
 // false otherwise." An element of another type than the set's element type is
-// not described: abstain.
+// not an element (see below).
 func refSetHasElement(args []spec.V) outcome {
 	if !nargs(args, 2) {
 		return ood("arity/null")
@@ -1289,7 +1289,16 @@ func refSetHasElement(args []spec.V) outcome {
 		return ood("not a set")
 	}
 	if !s.T.E.Equal(e.T) {
-		return abstain("element of another type")
+		if s.T.E.HasDynamic() || e.T.HasDynamic() {
+			return abstain("element of another type involving a placeholder")
+		}
+		// A value of another type is not an element of a set whose members all
+		// have the element type (the has-element operation answers False for
+		// it - property C02 - and the function is described as that operation:
+		// "Returns true if the given set contains the given element").
+		// In particular the element is NOT converted to the set's element type
+		// (the number 1 is not a member of {"1", "2"}).
+		return val(spec.KnownBool(false), "element-of-another-type")
 	}
 	d, unsure := dedupe(s.Elems)
 	m := memberOf(e, d)
